@@ -361,6 +361,10 @@ func c10shapes(r *vres.R) {
 			"kubernetes": []any{func() map[string]any { m := k("k1", "g"); m["queue"] = "q1"; return m }(), k("k2", "g")},
 			"schedule": []any{map[string]any{"name": "s1", "crontab": "* * * * *", "group": "g", "queue": "q2"}, map[string]any{"name": "s2", "crontab": "* * * * *", "group": "g"}}},
 			"startup=-|k:k1/q1/g/[k1 k2] k:k2/main/g/[k1 k2]|s:s1/q2/false/g/[k1 k2] s:s2/main/false/g/[k1 k2]"},
+		// names are optional and need not be unique: two unnamed bindings of one group load
+		{"group-of-unnamed", map[string]any{"configVersion": "v1", "kubernetes": []any{k("", "g"), func() map[string]any { m := k("", "g"); m["kind"] = "Pod"; return m }()},
+			"schedule": []any{map[string]any{"name": "s", "crontab": "* * * * *", "group": "g"}}},
+			"?"},
 		// onStartup: 0 is a declared binding with order 0, not an absent one
 		{"onstartup-zero", map[string]any{"configVersion": "v1", "onStartup": 0, "schedule": []any{map[string]any{"name": "s", "crontab": "* * * * *"}}},
 			"startup=0||s:s/main/false//[]"},
@@ -415,6 +419,11 @@ func c10shapes(r *vres.R) {
 		}
 		if render(cj) != render(cy) {
 			r.Violation("C10a json-yaml-differ", key, render(cj)+"\n"+render(cy), nil)
+			continue
+		}
+		if s.want == "?" {
+			// only "loads, and JSON and YAML agree" is checked for this shape
+			r.Outcome(render(cj), true)
 			continue
 		}
 		if render(cj) != s.want {
